@@ -50,6 +50,10 @@ SITES = [
        {"x": "x", "y": "y", "np.cos(rotation_angle)": "c", "np.sin(rotation_angle)": "s"}, ["x", "y", "c", "s"], ["rat"],
        ret="Rat × Rat"),
     # ---- RegularizedPtychographicOperator (pointwise over ℂ) -----------------------------------
+    # sub-pixel shift applied to the probe when moving from old_position to position
+    _s("probeShift", _R + "_overlap_projection", ("callarg", "fft_shift", 1, 0),
+       {"position": "p", "old_position": "o", "xp.round(position)": "rp", "xp.round(old_position)": "ro"}, ["p", "o", "rp", "ro"], ["rat"],
+       inline={"fractional_position": ("assign", "fractional_position", 0), "old_fractional_position": ("assign", "old_fractional_position", 0)}),
     _s("exitWave", _R + "_overlap_projection", ("assign", "exit_wave", 0), {"object_roi": "o", "probes": "p"}, ["o", "p"], ["cplx"]),
     _s("projectionSymbol", _R + "_fourier_projection", ("callarg", "ifft2", 0, 0),
        {"diffraction_patterns": "(d : ℂ)", "exit_wave_fft": "z"}, ["d", "z"], ["cplx"], param_types={"d": "ℝ"}),
